@@ -1,2 +1,2 @@
 #include "scen/c14_server.inc"
-REGISTER_SCENARIO(c14_server_t, "C14", "server", genServer, runServer, 40000, 2000000, {16, 64, 256}, 30, 3000000, 300.0, RULE14, REAL14, STUB14, true);
+REGISTER_SCENARIO(c14_server_t, "C14", "server", genServer, runServer, 150000, 4000000, {16, 64, 256}, 30, 3000000, 300.0, RULE14, REAL14, STUB14, true);
